@@ -2,7 +2,8 @@ SPEC = dict(
     claimed=True,
     title='External commands cannot hang or crash fan2go',
     props_file='Props/C19.v', props_mod='Props.C19',
-    proof_files=['Proofs/ExecCmd.v', 'Proofs/ExecShape.v', 'Proofs/ExecPerm.v', 'Drv/Exec.v'],
+    props_extra=[('Props/C19Link.v', 'Props.C19Link')],
+    proof_files=['Proofs/ExecCmd.v', 'Proofs/ExecShape.v', 'Proofs/ExecPerm.v', 'Proofs/ExecLinks.v', 'Drv/Exec.v'],
     tie_vo=['Proofs/ExecShape.vo', 'Proofs/ConstsTie_delays.vo', 'Proofs/LeafTie2_CheckFilePermissions.vo'],
     drivers=[dict(name='exec', drv_mod='Drv.Exec', drv_file='Drv/Exec.v', shard=200,
                   args={'quick': ['reps=1', 'long=3000'], 'thorough': ['reps=6', 'long=6000']},
@@ -23,7 +24,9 @@ SPEC = dict(
          'digit, 300 kB of x. Timeouts 200-500 ms through util.SafeCmdExecution; the same modes through CmdSensor.GetValue and '
          'CmdFan.GetPwm/SetPwm/GetRpm with the 2 s constant of the source (four of them past that deadline). Wall clock is '
          'measured around the call (a call that exceeds the bound is repeated once on the same script and the second observation '
-         'is reported: a hang reproduces, scheduling noise does not); a panic is recovered and recorded. Non-trivial = anything but "exit 0 with output"; '
+         'is reported: a hang reproduces, scheduling noise does not); a panic is recovered and recorded; every call runs under a '
+         'watchdog (3 x timeout + longest sleep + 3 s) and a call still blocked then - or a CmdSensor whose SetMovingAvg/GetMovingAvg '
+         'block after GetValue - is recorded as a hang. Non-trivial = anything but "exit 0 with output"; '
          'distinct = distinct (api, kind, status, signal, timeout, held descriptors, output, observed class).',
     assumptions=[
         'os/exec model (cmd_output): SIGKILL at the context deadline ends the child at once; its descendants are not killed; '
@@ -41,6 +44,7 @@ SPEC = dict(
         'tools/gen_exec_consts.py: regex translation of cmd.WaitDelay, of the (un)checked *exec.ExitError assertion and of the '
         'check-before-start order from internal/util/exec.go into gen/ExecConsts.v',
         'hand-written model of SafeCmdExecution, CmdSensor.GetValue, CmdFan.GetPwm/GetRpm/SetPwm and of os/exec in Model/Exec.v',
+        'C19_no_false_alarm (Props/C19Link.v) uses FloatAxioms.SF2Prim_Prim2SF (stdlib) through feqb_eq',
     ],
     partial='C19_bounded is a theorem about the model of os/exec, not about the Go runtime or the kernel: the model cannot exhibit '
             'scheduler latency, a child in uninterruptible sleep that survives SIGKILL, a fork that itself blocks, or memory '
